@@ -90,6 +90,13 @@ RefStep(ref, c) ==
                                IF \E s \in sub : Rebase(s, p, q) = x
                                THEN ref[CHOOSE s \in sub : Rebase(s, p, q) = x]
                                ELSE rest[x]])
+    \* Operations.Archive with k >= 1 members below an existing directory p (c.q lists the member names):
+    \* each member becomes a regular file with content <<c.c>>, created or replaced with fresh attributes
+    [] c.op = "Archive" ->
+         IF ~IsDir(ref, p) THEN Out("ENOTDIR", ref)
+         ELSE IF \E i \in 1..Len(q) : IsDir(ref, p \o <<q[i]>>) THEN Out("EISDIR", ref)
+         ELSE Out("ok", [x \in (DOMAIN ref) \cup {p \o <<q[i]>> : i \in 1..Len(q)} |->
+                           IF \E i \in 1..Len(q) : x = p \o <<q[i]>> THEN FileNode(<<c.c>>) ELSE ref[x]])
     [] c.op = "Chmod" ->
          IF ~Exists(ref, p) THEN Out("ENOENT", ref) ELSE Out("ok", [ref EXCEPT ![p].attr.mode = c.k])
     [] c.op = "Chown" ->
